@@ -1,6 +1,6 @@
 (** C10 — Dictionary builders are total and their acceptance implies safe use (PARTIAL). *)
 From Vib Require Import Model.Base Model.Lattice Model.Tokenizer Model.DictBuild Model.Mapper Check.TokCheck
-  Proofs.BuildProofs Proofs.MapperProofs Proofs.PartitionProofs.
+  Proofs.BuildProofs Proofs.MapperProofs Proofs.PartitionProofs Proofs.TotalProofs.
 Local Open Scope N_scope.
 
 (** [CharProperty::from_reader] / [UnkHandler::from_reader] / the dictionary builder on parsed
@@ -33,10 +33,12 @@ Proof. exact mapper_parse_never_panics. Qed.
 Theorem c10_tokenize_terminates : forall d o cs, tokenize_fresh d o cs <> OutOfFuel.
 Proof. exact tokenize_fresh_fuel. Qed.
 
-(** NOT proved here: "an accepted dictionary tokenizes every string without panicking".  It is
-    false of the pinned code for the known finding K1 (C01: c01_no_panic_refuted); outside K1 it
-    is decided on every run by the oracle (no panic of the real tokenizer on accepted
-    dictionaries, structured and text-corrupted). *)
+(** an accepted dictionary tokenizes every string without panicking, provided every character's
+    primary category has an unk.def entry and the costs are bounded ([wf]); acceptance itself
+    gives the id ranges (c10_ids_in_connector) but NOT the coverage clause: without it the
+    statement is false of the pinned code (known finding K1, c01_no_panic_refuted) *)
+Theorem c10_accepted_tokenizes : forall d B o cs, wf d B cs -> exists ts L eos, tokenize_fresh d o cs = Done (ts, L, eos).
+Proof. exact tokenize_total. Qed.
 
 Print Assumptions c10_chardef_total.
 Print Assumptions c10_unk_total.
@@ -45,3 +47,4 @@ Print Assumptions c10_at_most_18_categories.
 Print Assumptions c10_ids_in_connector.
 Print Assumptions c10_mapping_total.
 Print Assumptions c10_tokenize_terminates.
+Print Assumptions c10_accepted_tokenizes.
